@@ -73,6 +73,7 @@ func (l *DefaultListener) OnDropped() {
 
 func (l *DefaultListener) updateLimit(endTime int64, current measurements.ImmutableSampleWindow) {
 	if endTime > l.nextUpdateTime {
+		verifPoint("default.before_update")
 		// double check just to be sure
 		l.limiter.mu.Lock()
 		defer l.limiter.mu.Unlock()
